@@ -19,11 +19,12 @@ struct Gen {
   }
   int64_t pick_raw() {
     int64_t S = (int64_t)sr.bytes.size(); double u = g.unit();
+    if (u < 0.05) return 0;
     if (u < 0.35) return g.range(0, S);
     if (u < 0.70 && !sr.ps.pages.empty()) { auto &pg = g.pick(sr.ps.pages); return std::max<int64_t>(0, std::min(S, pg.off + g.range(-2, 30))); }
     if (u < 0.80 && !sr.ps.pages.empty()) { auto &pg = sr.ps.pages.back(); return std::max<int64_t>(0, std::min(S, pg.off + g.range(-1, pg.len))); }
     if (u < 0.90) { int l = (int)g.below(sr.nlinks + 1); return std::max<int64_t>(0, std::min(S, sr.ps.link_off[l] + g.range(-40, 40))); }
-    return g.chance(0.5) ? 0 : S;
+    return g.chance(0.6) ? 0 : S;
   }
   double time_of(int64_t pos, double frac) {
     int l = sr.link_of(std::min(pos, std::max<int64_t>(0, sr.total - 1))); double t = 0;
@@ -118,7 +119,7 @@ struct Gen {
   Plan make() {
     Rec &m = p.add("meta"); m.set("prop", prop).setu("seed", c.seed);
     std::string mode = "intact";
-    if (prop == "C19") mode = "lap"; else if (prop == "C12") mode = "iofault"; else if (prop == "C03") mode = "damaged";
+    if (prop == "C19") mode = "lap"; else if (prop == "C12") mode = "iofault"; else if (prop == "C03") mode = "damaged"; else if (prop == "C11") mode = "hole";
     else if (prop == "C13") { double u = g.unit(); mode = u < 0.35 ? "intact" : u < 0.7 ? "iofault" : "damaged"; }
     m.set("mode", mode);
     bool many = prop == "C17" || prop == "C09" || prop == "C03";
@@ -128,8 +129,17 @@ struct Gen {
     choose_file(pseek);
     bool seekable = p.first("file")->i("seekable") != 0;
     if (mode == "damaged") gen_pfaults();
+    if (mode == "hole") {   // one audio page in the middle of a link is dropped, fails its checksum, or arrives twice; then the stream is read through
+      std::vector<size_t> cand; for (int l = 0; l < sr.nlinks; l++) { std::vector<size_t> gp; for (size_t q = 0; q < sr.ps.pages.size(); q++) if (sr.ps.pages[q].link == l && !sr.ps.pages[q].header && sr.ps.pages[q].granule >= 0) gp.push_back(q); for (size_t a = 1; a + 3 < gp.size(); a++) cand.push_back(gp[a]); }
+      if (cand.empty()) { op("open"); linear_read(false); return p; }   // too few pages for a gap with exact surroundings: a plain read-through
+      static const char *hk[] = {"drop", "flip", "dup", "drop"}; p.add("pfault").set("kind", hk[g.below(4)]).set("page", (int64_t)cand[g.below(cand.size())]).set("a", (int64_t)(g.next() >> 20));
+      op("open"); if (seekable && g.chance(0.3)) op("tells");
+      int nr = (int)g.range(1, 3); for (int i = 0; i < nr; i++) op("read_float").set("len", (int64_t)(g.chance(0.3) ? g.range(1, 64) : g.range(64, 4096))).set("rep", 100000);
+      op("read_float").set("len", 64).set("rep", 1);
+      return p;
+    }
     { Rec &oo = op("open"); if ((prop == "C03" || prop == "C13") && g.chance(0.05)) oo.set("how", 1).set("notestopen", 1); }
-    if (prop == "C09") { if (g.chance(0.3)) op("info").set("i", (int64_t)g.range(-1, sr.nlinks)); linear_read(false); op("read_float").set("len", 64); }
+    if (prop == "C09") { if (g.chance(0.3)) op("info").set("i", (int64_t)g.range(-1, sr.nlinks)); linear_read(g.chance(0.4)); op("read_float").set("len", 64); }
     else if (prop == "C10") { linear_read(true); op("read_float").set("len", 64); if (g.chance(0.5)) p.add("pktpath").set("frag", (int64_t)g.range(1, 5000)).setu("seed", g.next() % 1000); }
     else if (prop == "C19") gen_lap();
     else if (prop == "C20") gen_halfrate(seekable);
@@ -152,7 +162,7 @@ struct Gen {
       else if (u < 0.14) { op("tells"); continue; }
       else if (u < 0.16 && prop == "C17") { op("halfrate").set("flag", (int64_t)g.below(2)); continue; }
       else if (u < 0.17) { op("info").set("i", (int64_t)g.range(-2, sr.nlinks + 1)); continue; }
-      else seek_op("", true, oor);
+      else seek_op(g.chance(0.07) ? "_lap" : "", true, oor);   // (a lapped seek: past its lap region the position/audio contract is the plain one)
       int nr = (int)g.range(0, 3); for (int j = 0; j < nr; j++) read_op(p_int);
       if (g.chance(0.15)) op("tells");
     }
@@ -214,7 +224,7 @@ struct Gen {
       if (u < 0.22) { on = !on || g.chance(0.1); op("halfrate").set("flag", on ? onflag() : 0); }
       else if (u < 0.30) { op("pcm_seek").set("a", sr.total - std::min<int64_t>(sr.total, (int64_t)g.below(3))); }
       else if (u < 0.36) { op("tells"); }
-      else seek_op("", true, 0.05);
+      else seek_op(g.chance(0.12) ? "_lap" : "", true, 0.05);   // lapped seeks too: past the lap region "the audio after any seek" holds for them as well
       int nr = (int)g.range(0, 3); for (int j = 0; j < nr; j++) read_op(0.15);
     }
     if (g.chance(0.3)) { op("pcm_seek").set("a", 0); linear_read(false); }
@@ -269,6 +279,7 @@ struct Gen {
       else if (u < 0.68) op("tells");
       else if (u < 0.78) op("info").set("i", (int64_t)g.range(-2, sr.nlinks + 1));
       else if (u < 0.86) op("halfrate").set("flag", (int64_t)g.below(2));
+      else if (u < 0.89 && seekable) { Rec &r = op("crosslap"); r.set("a", pick_pos()); if (g.chance(0.6)) r.set("hrb", (int64_t)g.below(2)); }
       else if (u < 0.92) linear_read(true);
       else { Rec &r = op("pcm_seek"); r.set("a", pick_pos()); }
     }
